@@ -58,7 +58,8 @@ def fn_items(path):
     out = []
     for idx, k in enumerate(s):
         t = toks[k]
-        if t.kind == 'ident' and t.text == 'fn' and idx + 1 < len(s) and toks[s[idx + 1]].kind == 'ident':
+        is_exec_const = (t.kind == 'ident' and t.text == 'const' and idx > 0 and toks[s[idx - 1]].text == 'exec')
+        if t.kind == 'ident' and (t.text == 'fn' or is_exec_const) and idx + 1 < len(s) and toks[s[idx + 1]].kind == 'ident':
             name = toks[s[idx + 1]].text
             mode = 'exec'
             if idx > 0 and toks[s[idx - 1]].text in ('proof', 'spec'):
